@@ -9,7 +9,8 @@ add("C16", "reference-model oracle + icontract postcondition on the real functio
     "Every low-pass entry point (numpy level, backend level, Fourier variants, pipeline converter, alignment "
     "pre-transform) is run on generated inputs over all side-parity classes and compared voxel by voxel with an "
     "independent float64 Butterworth reference; shape/realness, linearity, mean, identity thresholds and ft==fftn(real) "
-    "are asserted; contract K5 watches every call. Held = no disagreement on the executions of this run.",
+    "are asserted; float32/float64/int16/uint8/boolean inputs; contract K5 watches every call. Held = no disagreement on the "
+    "executions of this run.",
     "Trusted: numpy.fft as reference transform; float32 tolerance 2e-4 relative. Shapes up to 17 per side only.",
     "DESIGN.md section 4 C16")
 
@@ -18,7 +19,7 @@ add("C08", "reference-model oracle (bin-by-bin tilt geometry) + icontract postco
     "giving a range to an alignment model, mask_missing_wedge) is compared bin by bin with keep <=> the physical "
     "frequency R(k/shape) lies between the two tilt planes, over all side-parity classes (thorough: all 512 shapes in "
     "[1..8]^3), cube-symmetry and random orientations, 12+ tilt ranges, both axes; DC, k->-k symmetry, union and "
-    "realness are asserted; models are also built through Model.with_params(tilt_range=...) and the rarely used Backend "
+    "realness are asserted; models are also built from x-, y- and dual-axis tilt model objects, through with_params(tilt_range=...) and the rarely used Backend "
     "helper. Held = no decided bin disagreed in this run.",
     "Bins within 1e-5 of a wedge plane are undecided (float32 normals). On an even-axis Nyquist plane the stored index "
     "-N/2 aliases +N/2: the mask must match the geometry of one alias and symmetry is not judged there (the two clauses "
@@ -44,7 +45,7 @@ add("C12", "history + executable row model (join on unique uid after every step)
     "are compared, partitions are checked, and inconsistent inputs must be rejected or stay consistent; data-frame views are "
     "read before and after in-place appends on the same object (stale-cache detection); the source, the appended table and the "
     "parts of an accumulation loop are re-checked after every in-place append (aliasing); feature-less tables are concatenated "
-    "in any position.",
+    "in any position; cutby on features with nulls; constructors with zero positions.",
     "sample's choice and the order of equal sort keys are not predicted (subset / key-ordered permutation accepted). "
     "cutby is driven only with non-null cut columns; sort keys are non-null columns.",
     "DESIGN.md section 4 C12")
@@ -54,7 +55,7 @@ add("C13", "round-trip oracle on generated tables, byte-level suffix dispatch ch
     "features with nulls) are written and re-read through to_file/from_file (magic bytes decide which format was "
     "written), to_csv/from_csv at precisions {0,2,4,8,None}, to_parquet/from_parquet and to_dataframe/from_dataframe; "
     "row order, column layout, bit-equal positions (binary routes), float32-rotvec orientation precision, decimal "
-    "precision (CSV) and feature values/dtypes are compared; every row count 1..14 is run systematically.",
+    "precision (CSV) and feature values/dtypes are compared; every row count 1..14 is run systematically; the saved object is edited in place and saved again.",
     "CSV strings are generated from a class that survives type inference (number-like strings, empty strings and "
     "nulls are a format limitation, exercised only through Parquet).",
     "DESIGN.md section 4 C13")
@@ -66,7 +67,8 @@ add("C02", "reference-model oracle (map_coordinates on the full tomogram) + entr
     "corner_safe or identity, inscribed ball otherwise) is compared with an independent sampler at "
     "pos/scale + R(k-(shape-1)/2); exact block for the exact case; six entry points agree; all voxels finite; far-outside "
     "windows must raise SubvolumeOutOfBoundError; after an in-place edit of its Molecules the same loader must sample the new "
-    "poses (compared with a fresh loader); batch and single loaders agree.",
+    "poses (compared with a fresh loader); batch and single loaders agree; windows crossing both faces of an axis and several "
+    "loaders computed in one dask graph are covered.",
     "Order-3 voxels are bounded (0.06 sigma interior, 0.15 sigma within 8 voxels of a face) rather than compared exactly: "
     "acryo prefilters the crop, the reference the whole tomogram. Between 'some overlap' and 'far outside' either outcome is "
     "accepted but a returned array must be finite. Order-0 coordinates within 1e-3 of a rounding boundary are undecided.",
@@ -77,7 +79,8 @@ add("C15", "metamorphic oracle (binned load == block sum of the b-times larger o
     "the binned image equals reference block sums, scale and molecule translation follow the half-bin rule, "
     "orientations/features and the source loader are untouched, and every sub-volume loaded from the binned loader equals "
     "the block sum of the corresponding b-times larger sub-volume of the original loader. Batch loaders mix numpy and dask "
-    "tomograms; dask chunk sizes are not multiples of b; molecules carry cube-symmetry rotations.",
+    "tomograms; dask chunk sizes are not multiples of b; molecules carry cube-symmetry rotations; integer tomograms near the top "
+    "of their range.",
     "Metamorphic relation is exact only for identity orientation, molecules on the binned grid and orders 0/1, which is "
     "what the workload generates.",
     "DESIGN.md section 4 C15")
@@ -100,7 +103,8 @@ add("C17", "reference-model oracle per shell + icontract K9/K6, loader-level hal
     "of the returned half-maps times the mask, half-maps must be the zero-normalised split averages, frames must be "
     "reproducible per seed; FSCAlignment.score is 1 on the template, bounded and symmetric. Masks are given as array, "
     "ImageProvider and ImageConverter to single, batch and group loaders; repeated calls alternate shell widths on one shape; "
-    "constant and blank images are scored and aligned with FSC in both argument orders (exactly empty shells).",
+    "constant and blank images are scored and aligned with FSC in both argument orders (exactly empty shells); integer against "
+    "float images.",
     "Shells with a bin within 1e-6 of a shell boundary, or holding < 1e-8 of either input's power, are undecided.",
     "DESIGN.md section 4 C17")
 
@@ -112,7 +116,7 @@ add("C01", "analytic ground-truth poses (exactly rendered tomograms) + pose/feat
     "scales {1,0.5,0.7,2.3}, rotation sets given as Rotation / list / (max,step); output positions (0.25 px), orientations "
     "(0.05 deg), shift/rotation/score features are compared with the truth; align(template=list) and align(4-D template) "
     "(implicit multi-template dispatch), non-cubic boxes under rotation search and hand-made LoaderGroups of loaders with "
-    "different pixel sizes are included.",
+    "different pixel sizes and a common constant grey level under tomogram and template are included.",
     "Noise-free particles; multi-template species have equal energy (PCC scores are not normalised); template-free "
     "alignment is judged by consensus of 6 molecules (spread <= 0.5 px and <= 0.6 x the input spread).",
     "DESIGN.md section 4 C01")
@@ -123,7 +127,8 @@ add("C04", "analytic displaced copies (exact ground truth) + accuracy oracle per
     "grid and anisotropic; all four models, masks none/binary/soft, cutoffs, single/dual-axis tilt models, random "
     "orientations, gains/offsets; |shift - d| is held against the property's own 0.1 / 0.5 px, identity rotation, score, "
     "fit == align, fitted image superimposes (sign convention); sub-volumes sit on constant backgrounds of 0/0.5/2x the amplitude, "
-    "data of low overall intensity (x1e-3, x1e-4) and search ranges wider than half the box are included.",
+    "data of low overall intensity (x1e-3, x1e-4), search ranges wider than half the box and anisotropic ranges with any axis the "
+    "widest are included.",
     "Exceedances of the stated accuracy that match a listed mechanism (wedge bias of ZNCC/NCC, range-edge tail, FSC "
     "integer-grid interpolation) are KNOWN-FINDINGs; their predicates bound the error size and beyond the first bound require "
     "the signature of the mechanism (z-only under-estimate; result within 0.75 px of the best integer shift of an independently "
@@ -150,7 +155,8 @@ add("C06", "ground-truth (template j, rotation k, shift d) planting + candidate-
     "Candidates with rotation-variant and boolean masks, searches with 375 candidates (labels above 255), single non-identity "
     "rotations (stacked, listed or a single Rotation object) and (max, step) ranges whose end points are exact multiples are "
     "included; models carry tilt models (the wedge is the same for every candidate), fit and align must agree on every "
-    "sub-volume, and group mappings give different numbers of templates per key.",
+    "sub-volume, group mappings give different numbers of templates per key, and contrast-inverted particles make every "
+    "candidate score negative (the arg-max contract only).",
     "Oracle B relies on the model evaluating candidates through its _optimize method (observed T*K calls is asserted).",
     "DESIGN.md section 4 C06")
 
@@ -190,7 +196,8 @@ add("C09", "one-hot identity encoding of split membership + float64 mean referen
     "half-maps must equal the means over exactly those sets, also through fsc_with_halfmaps and LoaderGroup.average_split. "
     "Batch loaders with rotated molecules, corner_safe, orders 0/1/3 and scales must average to the count-weighted mean of "
     "single loaders built with the same options, also under explicit image ids registered out of sorted order and after "
-    "dropping one tomogram and adding another with an automatic id.",
+    "dropping one tomogram and adding another with an automatic id; loaders are used before they are complete; groupings with "
+    "one-molecule groups are split.",
     "Identity orientation, integer sample coordinates (orders 0/1) so that the loaded blocks are known exactly (except in "
     "the rotated batch law, which compares two loader kinds with each other).",
     "DESIGN.md section 4 C09")
@@ -205,7 +212,7 @@ add("C10", "schedule/interleaving perturbation vs synchronous reference: schedul
     "to the reference, memoised helper arrays unchanged, Backend default restored; declared shapes of lazy arrays equal "
     "computed shapes for integer/fractional ranges (also beyond box/2), upsample 1-4, single/multi template; multi-candidate "
     "landscapes (landscape-rot) run under threads and injected yields; lazily binned loaders are compared across tomogram "
-    "chunkings.",
+    "chunkings; MockLoader sub-volumes with tilt-series noise are compared across schedules.",
     "Interleavings are sampled, not enumerated: held = no difference on the perturbed runs of this execution (counts of "
     "injected yields, shuffled tasks, distinct signatures in the evidence). Only GIL hand-over points CPython really has "
     "(statement starts, call boundaries) are used. cupy backend absent.",
@@ -219,7 +226,8 @@ add("C18", "exact-SVD reference on planted low-rank stacks over stack chunkings 
     "the label column is integer, attached in molecule order, and nothing else about molecules or source changes. "
     "Flat-spectrum (noise-dominated) stacks: singular values exact in the full-solver regime, components judged only where "
     "singular values are separated, projections == (X - mean) @ reported components. Wedge-masked-difference cases: randomly "
-    "oriented molecules under five tilt models; each PCA input row must equal what a model that saw no other molecule computes.",
+    "oriented molecules under five tilt models; each PCA input row must equal what a model that saw no other molecule computes. "
+    "Integer stacks under soft masks; groups of very different sizes over 12 k-means seeds.",
     "Stacks with more than 500 features take the randomised solver whose seed is drawn from numpy's global RNG; with a "
     "planted spectral gap its error is far below the 2e-3 tolerance; without a gap and more than 20 images it is inexact: "
     "open finding pca.randomized-solver-inexact (KNOWN-FINDING, bounded predicate).",
@@ -235,7 +243,8 @@ add("C19", "reference interpreter for generated pipeline expression trees + alge
     "loader.normalize_template/mask/input at the loader's scale; from_array tolerance at voxel sizes far from 1 nm and under a "
     "change of length unit; converters built from ndarray parameters evaluated twice and at two scales (purity); gaussian_filter "
     "and shift against scipy for every mode and cval; from_atoms against a voxel-by-voxel weighted histogram; mask converters on "
-    "objects touching the box faces; scalar arithmetic with boolean-valued pipelines.",
+    "objects touching the box faces; scalar arithmetic with boolean-valued pipelines; every tree is evaluated twice and the "
+    "providers' arrays re-read (purity); erosion against dilation of the complement at non-integer radii.",
     "Leaf pipelines are trusted inside trees (the algebra is judged there); comparisons only at the root (arithmetic on "
     "boolean arrays is numpy's semantics). radius/scale is kept away from integers so one ulp cannot flip a ceil.",
     "DESIGN.md section 4 C19")
@@ -248,6 +257,7 @@ add("C20", "planted-particle ground truth (bijection oracle) + numpy-vs-chunked 
     "be one-to-one with the particles (1 px), carry the planted rotation, and positions and scores of the chunked run "
     "must equal those of the numpy run. A quarter of the LoG/DoG images are slabs thinner than the overlap depth; template "
     "matching uses exclusion radii of 5/8/10 px given in nm with particles as close as the template allows, even-sized templates "
-    "(half-integer positions) and chunk borders that pass exactly through a particle centre.",
+    "(half-integer positions), chunk borders that pass exactly through a particle centre, grey-level offsets of +5000/-20000 and "
+    "provider templates on a matcher that first served another pixel size.",
     "Noise-free (LoG/DoG) or weak-noise (template matching) images; particle spacing >= 6 sigma / template size + 6.",
     "DESIGN.md section 4 C20")
